@@ -140,15 +140,22 @@ func Harness_C18_file_footer() {
 }
 
 // Harness_C18_file_header: arbitrary block size / update index fields in header and footer copy, arbitrary version byte.
-// bounds: the same base tables; header bytes 4..24 (version, block size, min and max update index) arbitrary, identical in the footer copy
+// bounds: the same base tables; header bytes 4..24 (version, block size, min and max update index), or the 4-byte hash id of the version 2 table, arbitrary, identical in the footer copy
 // covers: opened, rejected
 func Harness_C18_file_header() {
 	data := hostileBase(VerifChoose(4))
 	version := int(data[4])
 	foot := len(data) - footerSize(version)
 	lo, hi := 4, 8
-	if VerifChoose(2) == 1 {
+	switch VerifChoose(3) {
+	case 1:
 		lo, hi = 8, 24
+	case 2:
+		// the hash id of a version 2 header (version 1 has none: nothing to edit)
+		if version != 2 {
+			return
+		}
+		lo, hi = 24, 28
 	}
 	for i := lo; i < hi; i++ {
 		b := VerifU8()
